@@ -127,7 +127,6 @@ static void lifecycle(vf::Ctx& c, int kind, int body, uint64_t pattern)
 	case 0: {
 		Worker w(&runs, &out[0], 41, body);
 		w.start();
-		if (body == 3 && w.finished()) c.count("finished_true_before_join");
 		w.join();
 		if (runs != 1) c.fail("thread.run-count", vf::fmt("run() executed %d times", (int)runs));
 		if (out[0] != 41) c.fail("thread.effect-not-visible-after-join", "");
